@@ -77,7 +77,9 @@ func (g G) Type(depth int) cty.Type {
 		return cty.Tuple(ts)
 	default:
 		obj := cty.Object(map[string]cty.Type{"a": cty.String, "n": cty.Number})
-		return Pick(g, []cty.Type{cty.List(obj), cty.List(obj), cty.Map(obj), cty.Map(cty.Tuple([]cty.Type{cty.String, cty.Number})), cty.Set(obj)})
+		// an optional attribute between two mandatory ones (Terraform's optional() variables)
+		opt := cty.ObjectWithOptionalAttrs(map[string]cty.Type{"a": cty.String, "ab": cty.Number, "k": cty.Bool, "n": cty.List(cty.String)}, []string{"ab", "n"})
+		return Pick(g, []cty.Type{cty.List(obj), cty.List(obj), cty.Map(obj), cty.Map(cty.Tuple([]cty.Type{cty.String, cty.Number})), cty.Set(obj), opt, opt, cty.List(opt)})
 	}
 }
 
